@@ -1,8 +1,8 @@
 SPECIFICATION Spec
 CONSTANTS
+  T <- TraceT
   StrictA = FALSE
   CheckCat = FALSE
-  CheckOrder = FALSE
-INVARIANTS WellFormed OtherWellFormed
+INVARIANTS BatchOK CopyOK SourceUnaffected
 POSTCONDITION TraceAccepted
 CHECK_DEADLOCK FALSE
